@@ -312,9 +312,15 @@ impl IpSender {
     /// We may be asked to send IPv4-mapped IPv6 addresses.  But our sockets are configured
     /// to only send their actual family.  So we need to map those back to the canonical
     /// addresses.
+    ///
+    /// A genuine IPv6 address is returned unchanged: its scope id is needed to reach
+    /// link-local destinations.
     #[inline]
     fn canonical_addr(addr: SocketAddr) -> SocketAddr {
-        SocketAddr::new(addr.ip().to_canonical(), addr.port())
+        match addr.ip().to_canonical() {
+            ip @ IpAddr::V4(_) => SocketAddr::new(ip, addr.port()),
+            IpAddr::V6(_) => addr,
+        }
     }
 
     pub(super) fn poll_send(
